@@ -23,24 +23,24 @@ func (r SatResult) String() string { return [...]string{"unsat", "sat", "unknown
 
 // Solver drives one long-lived SMT solver process (z3 -in) with push/pop.
 type Solver struct {
-	cmd      *exec.Cmd
-	in       io.WriteCloser
-	out      *bufio.Reader
-	epoch    int
-	timeout  int // ms per query
-	Queries  int
-	Time     time.Duration
-	Unknowns int
-	Errors   []string
-	log      *os.File
-	kind     string
-	pathsRun int
-	ufset    map[string]bool
-	pathLog  strings.Builder // path-level commands of the current scope (for portfolio fallback)
+	cmd           *exec.Cmd
+	in            io.WriteCloser
+	out           *bufio.Reader
+	epoch         int
+	timeout       int // ms per query
+	Queries       int
+	Time          time.Duration
+	Unknowns      int
+	Errors        []string
+	log           *os.File
+	kind          string
+	pathsRun      int
+	ufset         map[string]bool
+	pathLog       strings.Builder // path-level commands of the current scope (for portfolio fallback)
 	Fallbacks     int
 	FallbackSaved int
 	fallbackMs    int
-	ufEpoch  int
+	ufEpoch       int
 }
 
 func NewSolver(kind string, timeoutMs int, logPath string) (*Solver, error) {
@@ -143,7 +143,7 @@ func (s *Solver) roundTrip(txt string) []string {
 		if line == "" {
 			continue
 		}
-		if strings.Contains(line, "(error") {
+		if strings.Contains(line, "(error \"") {
 			s.Errors = append(s.Errors, line)
 		}
 		lines = append(lines, line)
@@ -413,7 +413,7 @@ func (s *Solver) fallback(query string, wantModel bool, vars []*Term) (SatResult
 		cmd.Stdin = strings.NewReader(c.pre + txt.String())
 		out, _ := cmd.CombinedOutput()
 		o := string(out)
-		if strings.Contains(o, "(error") {
+		if strings.Contains(o, "(error \"") {
 			continue
 		}
 		lines := strings.Split(o, "\n")
